@@ -82,24 +82,26 @@ pub struct RunResult {
 pub static BEAT: std::sync::Mutex<Option<Box<dyn Fn(usize) + Send>>> = std::sync::Mutex::new(None);
 
 pub fn classify(msg: &str) -> &'static str {
-    if msg.starts_with("deadlock;") {
-        "deadlock"
-    } else if msg.starts_with("Causality violation") {
-        "race"
-    } else if msg.starts_with("Arc leaked") {
-        "leak:arc"
-    } else if msg.starts_with("Allocation leaked") {
-        "leak:alloc"
-    } else if msg.starts_with("Messages leaked") {
-        "leak:msg"
-    } else if msg.starts_with("Model exceeded maximum number of branches") {
-        "branches"
-    } else if msg.starts_with("currently writing to cell") || msg.starts_with("currently reading from cell") {
-        "usage"
-    } else if msg.starts_with("verif-panic") {
+    // by what the message says, not by its exact wording: a reworded message is still the same report
+    let m = msg.to_lowercase();
+    if msg.starts_with("verif-panic") {
         "panic"
     } else if msg.starts_with("verif-cap") {
         "capped"
+    } else if m.starts_with("deadlock") || m.contains("deadlock;") {
+        "deadlock"
+    } else if m.starts_with("causality violation") || m.contains("concurrent read and write") || m.contains("concurrent write") {
+        "race"
+    } else if m.starts_with("arc leaked") {
+        "leak:arc"
+    } else if m.starts_with("allocation leaked") {
+        "leak:alloc"
+    } else if m.starts_with("messages leaked") {
+        "leak:msg"
+    } else if m.contains("maximum number of branches") {
+        "branches"
+    } else if m.starts_with("currently writing to cell") || m.starts_with("currently reading from cell") {
+        "usage"
     } else {
         "other"
     }
